@@ -39,6 +39,11 @@ def basicKind? : String → Option FileState
   | "bad" => some .malformed
   | "mistyped" => some .malformed
   | "loop" => some .other
+  -- other spellings of the same states (harness/dom_retry.go): the empty path and a path through a missing directory are
+  -- missing files; a file named with a trailing slash is ENOTDIR
+  | "unset" => some .missing
+  | "dotdot" => some .missing
+  | "slash" => some .other
   | _ => none
 
 def parseSpec (pfx s : String) : Option Spec :=
